@@ -37,6 +37,7 @@ Fixpoint in_typeb (t : gty) (v : val) {struct t} : bool :=
   | TTime, VTime _ => true
   | TLoc, VLoc _ => true
   | TIface IAny, VCalls _ => false        (* not a Go value *)
+  | TIface IAny, VRef _ _ _ => false      (* only ever produced by zap's own wrapper loops, never an input *)
   | TIface IAny, _ => true
   | TIface IError, VNil => true           (* a nil error is a documented input; nil marshalers/Stringers are not *)
   | TIface _, VOpq _ => true
@@ -117,8 +118,12 @@ Definition intent (nm : name) : name :=
   match assoc nm intents with Some i => i | None => [] end.
 
 (* one element of a slice constructor: the same element, in order; nil errors skipped; an error
-   is an object holding its message under ($"error"); a Stringer is its String() *)
-Definition exp_elem (t : gty) (x : val) : option (list call) :=
+   is an object holding its message under ($"error"); a Stringer is its String().  [a] is the
+   identity of the caller's slice and [i] the position of the element: where the marshal method
+   is on the pointer (ObjectValues) the encoder is handed the address of the caller's OWN
+   element i -- not of a copy: a copy renders the same only for as long as nobody looks again
+   (an encoder that keeps the marshaler, a marshal method that updates its receiver) *)
+Definition exp_elem (t : gty) (a i : Z) (x : val) : option (list call) :=
   match t, x with
   | TBool, VBool _ => Some [(($"bool"), [], x)]
   | TNum n, VI _ => Some [(num_class n, [], x)]
@@ -130,7 +135,7 @@ Definition exp_elem (t : gty) (x : val) : option (list call) :=
   | TBytes, VBytes _ _ => Some [(($"bytestring"), [], x)]
   | TTime, VTime _ => Some [(($"time"), [], x)]
   | TIface IObjM, VOpq _ => Some [(($"object"), [], x)]
-  | TAddrOf IObjM, VOpq _ => Some [(($"object"), [], VPtr x)]
+  | TAddrOf IObjM, VOpq _ => Some [(($"object"), [], VRef a i x)]
   | TIface IStringer, VOpq o => Some [(($"string"), [], VStr (ostr o))]
   | TIface IError, VNil => Some []
   | TIface IError, VOpq o =>
@@ -144,8 +149,8 @@ Fixpoint exp_typed (t : gty) (k : bytes) (v : val) {struct t} : option (list cal
   match t, v with
   | TPtr _, VNil => Some [(($"reflect"), k, VNil)]
   | TPtr t', VPtr u => exp_typed t' k u
-  | TSlice t', VSlice _ l =>
-      option_map (fun cs => [(($"array"), k, VCalls cs)]) (oconcat (exp_elem t') l)
+  | TSlice t', VSlice a l =>
+      option_map (fun cs => [(($"array"), k, VCalls cs)]) (oconcati (exp_elem t' a) 0 l)
   | TBool, VBool _ => Some [(($"bool"), k, v)]
   | TNum n, VI _ => Some [(num_class n, k, v)]
   | TF64, VF64 _ => Some [(($"f64"), k, v)]
@@ -162,7 +167,7 @@ Definition exp_dict (k : bytes) (v : val) : option (list call) :=
   match v with
   | VSlice _ l =>
       option_map (fun cs => [(($"object"), k, VCalls (norm_calls cs))])
-        (oconcat (fun x => match field_of_val x with Some f => addto T (S (val_depth v)) f | None => None end) l)
+        (oconcati (fun _ x => match field_of_val x with Some f => addto T (S (val_depth v)) f | None => None end) 0 l)
   | _ => None
   end.
 
@@ -235,6 +240,7 @@ Fixpoint self_equal (v : val) : bool :=
   | VC128 r i => negb (f64_nan r) && negb (f64_nan i)
   | VC64 r i => negb (f32_nan r) && negb (f32_nan i)
   | VPtr u | VWrap _ u => self_equal u
+  | VRef _ _ _ => false                     (* never stored in a Field *)
   | VSlice a l => negb (a =? 0) || forallb self_equal l
   | VFld _ _ _ _ x => self_equal x
   | VCalls _ => false                       (* not a Go value *)
@@ -295,6 +301,7 @@ Fixpoint sx_of_val (v : val) : sx :=
   | VOpq o => SL [SZ 10; SZ (oty o); SZ (oaddr o); SZ (ocontent o); of_bool (ocmp o); of_bool (oself o); SB (ostr o); SB (oerr o)]
   | VNil => SL [SZ 11]
   | VPtr u => SL [SZ 12; sx_of_val u]
+  | VRef a i u => SL [SZ 17; SZ a; SZ i; sx_of_val u]
   | VSlice a l => SL [SZ 13; SZ a; SL (map sx_of_val l)]
   | VWrap w u => SL [SZ 14; SB (bs w); sx_of_val u]
   | VFld t k i s x => SL [SZ 15; SZ t; SB k; SZ i; SB s; sx_of_val x]
@@ -319,6 +326,7 @@ Fixpoint val_of_sx (s : sx) : val :=
           VOpq {| oty := a; oaddr := b; ocontent := c; ocmp := negb (d =? 0); oself := negb (e =? 0); ostr := f; oerr := g |}
       | 11, [] => VNil
       | 12, [u] => VPtr (val_of_sx u)
+      | 17, [SZ a; SZ i; u] => VRef a i (val_of_sx u)
       | 13, [SZ a; SL l] => VSlice a (map val_of_sx l)
       | 14, [SB w; u] => VWrap (ss w) (val_of_sx u)
       | 15, [SZ t; SB k; SZ i; SB s'; x] => VFld t k i s' (val_of_sx x)
